@@ -81,5 +81,20 @@ func Debug(repo string, args []string) {
 		})
 	case "ssa":
 		fn.WriteTo(os.Stdout)
+	case "wt":
+		re := p.Reachable([]*ssa.Function{fn}, nil)
+		w := NewWriteThrough(p, re.RepoFuncs())
+		fmt.Printf("reachable repo funcs: %d\n", len(re.RepoFuncs()))
+		for _, l := range w.Describe(fn) {
+			fmt.Println(" ", l)
+		}
+		if len(args) > 3 {
+			for _, f := range re.RepoFuncs() {
+				fmt.Println(FuncName(f))
+				for _, l := range w.Describe(f) {
+					fmt.Println("    ", l)
+				}
+			}
+		}
 	}
 }
